@@ -478,6 +478,27 @@ class Interp:
                     tabs = c19.ref_lrelu_tables(it["dtype"], si[0], int(zi[0]), so[0], int(zo[0]), opts.get("Alpha", 0.0))
                     table = np.asarray(tabs[0], I64)
             return [table[x - lo]]
+        if code == "SQUARED_DIFFERENCE":
+            # squared_difference.cc (int8): both operands shifted left by 7, scaled to twice the larger input scale, the squared difference scaled to the output
+            t1, t2 = T[ins[0]], T[ins[1]]
+            if t1["dtype"] != "int8" or t2["dtype"] != "int8" or ot["dtype"] != "int8":
+                raise Unsupported("SQUARED_DIFFERENCE on %s" % t1["dtype"])
+            a = self.get(values, ins[0]).astype(I64)
+            b = self.get(values, ins[1]).astype(I64)
+            s1, z1 = qparams(t1)
+            s2, z2 = qparams(t2)
+            so, zo = qparams(ot)
+            twice = 2.0 * max(float(s1[0]), float(s2[0]))
+            m1, e1 = tflref.quantize_multiplier(float(s1[0]) / twice)
+            m2, e2 = tflref.quantize_multiplier(float(s2[0]) / twice)
+            mo, eo = tflref.quantize_multiplier(twice * twice / ((1 << 14) * float(so[0])))
+            if e1 > 0 or e2 > 0 or eo > 0:
+                raise Unsupported("SQUARED_DIFFERENCE with a multiplier above one")
+            va = vec_mbqm((a - int(z1[0])) * 128, m1, e1)
+            vb = vec_mbqm((b - int(z2[0])) * 128, m2, e2)
+            d = va - vb
+            lo, hi = dtype_range("int8")
+            return [np.clip(vec_mbqm(d * d, mo, eo) + int(zo[0]), lo, hi)]
         if code == "ABS":
             it = T[ins[0]]
             if it["dtype"] not in ("int8", "uint8", "int16") or ot["dtype"] != it["dtype"]:
